@@ -159,6 +159,25 @@ async function build (tier) {
       }
     })
   }
+  // (ii-c) every operation schema of the grammar, plain and with d extra pairs of parentheses around its
+  // operands / its assignment target / the whole operation (parentheses are where tree rewriting loops hide)
+  {
+    const G = require('../grammar/space')
+    const depths = thorough ? [0, 1, 2, 3, 6] : [0, 1, 2, 3]
+    const wrap = (t, d) => '('.repeat(d) + t + ')'.repeat(d)
+    G.SCHEMAS.forEach((sc, si) => {
+      stats.states++
+      for (const d of depths) {
+        for (const where of d === 0 ? ['plain'] : ['operands', 'target', 'whole']) {
+          let op
+          if (where === 'plain' || where === 'operands') op = G.fill(sc.tpl, { X: wrap('a', d), Y: wrap('b', d), Z: wrap('o.p', d), S: wrap('arr', d) })
+          else if (where === 'target') { const m = /^([^=]+?) (\+=|\|\|=|\?\?=) /.exec(sc.tpl); if (!m) continue; op = G.fill(wrap(m[1], d) + sc.tpl.slice(m[1].length), {}) } else op = wrap(G.fill(sc.tpl, {}), d)
+          stats.states++; stats.transitions++
+          leaves.push({ fam: 'schema', key: `schema:${si}:${where}:${d}`, code: `function main(a, b, c, o, s, g, f, h, k, i, x, y, arr, X) {\n  y = ${op};\n  ${op};\n}`, file: '/p/app.js', config: 'FULL' })
+        }
+      }
+    })
+  }
   // (iii) file names x reference kinds x reader answers x settings
   {
     const bigTimes = thorough ? 64 * 1024 * 1024 : 8 * 1024 * 1024
@@ -324,7 +343,7 @@ module.exports = {
   requests,
   check,
   timeoutMs: 30000,
-  rule: 'leaves = every token string of length<=L over a 14-token alphabet (raw and inside a function body), every single-token del/dup/substitution/prefix of 40 seed programs, the full product file-name x map-reference x reader-answer x chain x comments x parent-mode, every sequence of <= 4 (5) trailing references/comments/code items x chain x comments, 2^6 option-presence patterns x verbosity spellings + malformed configs, and every byte offset 0..255 of a multi-byte character in leading text; every leaf is one real rewrite call, all are non-trivial (each is a distinct input tuple; distinctness by hash of (code,file,config,vfs,parent-mode))',
+  rule: 'leaves = every token string of length<=L over a 14-token alphabet (raw and inside a function body), every single-token del/dup/substitution/prefix of 40 seed programs, every grammar schema plain and with 1-3 (6) extra pairs of parentheses around operands / assignment target / whole operation, the full product file-name x map-reference x reader-answer x chain x comments x parent-mode, every sequence of <= 4 (5) trailing references/comments/code items x chain x comments, 2^6 option-presence patterns x verbosity spellings + malformed configs, and every byte offset 0..255 of a multi-byte character in leading text; every leaf is one real rewrite call, all are non-trivial (each is a distinct input tuple; distinctness by hash of (code,file,config,vfs,parent-mode))',
   explanation: 'explicit enumeration of the input/fault space executed against the real rewriter (Rust sources of the working tree) under catch_unwind + watchdog; oracle = call returns Ok or Err(non-empty message)',
   assumptions: ['native build of the rewriter (serde_json instead of serde-wasm-bindgen; in-memory FileReader with both the trait-default and a Node-dirname `parent`)', 'pathological nesting depth excluded by the property statement; no deep-nesting inputs are generated', 'watchdog 30 s per call']
 }
